@@ -50,7 +50,7 @@ LEDGER_ALTER = ["ui_message", "ui_signature", "ui_app_hash", "signer_message", "
 SGX_ALTER = ["env:quote", "env:quote-report-data", "env:signature", "env:att-key",
              "env:qe-report", "env:qe-report-data", "env:qe-signature", "env:auth-data",
              "env:cert-der", "env:custom-message", "message", "root", "final-file",
-             "pubkeys-file"]
+             "pubkeys-file", "root-signature", "root-signature"]
 
 
 def shards(tier, seed):
@@ -376,7 +376,8 @@ def sgx_run(acc, cseed, alter, tmpdir):
     acc.distinct.add("sgx|%d|%d|%s" % (2 + include_root, gd.page_size // 100, alter))
     failed = None
     out = ""
-    with AdminEnv(dev, "sgx") as ae:
+    from ..fakenet import FakeWeb
+    with AdminEnv(dev, "sgx") as ae, FakeWeb() as web:
         for name, fn in (("attestation", do_attestation), ("pubkeys", do_get_pubkeys),
                          ("verify", do_verify_attestation)):
             if name == "attestation":
@@ -389,8 +390,31 @@ def sgx_run(acc, cseed, alter, tmpdir):
                 if alter == "root":
                     k = g2.new_key(rng)
                     root_cert = g2.make_cert("root", k.public_key(), "root", k)
+                root_pem = g2.pem(root_cert)
+                if alter == "root-signature":
+                    # the genuine root certificate - subject, key, everything - with one bit
+                    # of its signature value flipped (it still parses)
+                    import base64
+                    from cryptography.hazmat.primitives import serialization
+                    der_ = bytearray(root_cert.public_bytes(serialization.Encoding.DER))
+                    der_[len(der_) - 1 - rng.randrange(20)] ^= 1 << rng.randrange(8)
+                    b64 = base64.b64encode(bytes(der_)).decode()
+                    root_pem = "-----BEGIN CERTIFICATE-----\n" + "\n".join(
+                        b64[i:i + 64] for i in range(0, len(b64), 64)) + \
+                        "\n-----END CERTIFICATE-----\n"
                 with open(rootp, "w") as f:
-                    f.write(g2.pem(root_cert))
+                    f.write(root_pem)
+                # the root of trust reaches the tool as a file, from a URL, or from the
+                # built-in default URL (no -r); the same URL serves each device's own root
+                import admin.verify_sgx_attestation as vsa
+                delivery = rng.choice(["file", "url", "default-url"])
+                acc.count("root_of_trust_delivered_by_" + delivery.replace("-", "_"))
+                if delivery == "url":
+                    rootp = "https://certificates.example/sgx/root.pem"
+                    web.serve(rootp, root_pem)
+                elif delivery == "default-url":
+                    web.serve(vsa.DEFAULT_ROOT_AUTHORITY, root_pem)
+                    rootp = None
                 if alter == "final-file":
                     def pick(d):
                         e = rng.choice([x for x in d["elements"] if x["type"] != "x509_pem"])
